@@ -107,12 +107,25 @@ def run_write(ctx):
         with core.quiet():
             G = PGMCompiler(**cfg)
             blocks = []
-            for _ in range(3):
+            for rep in range(3):
                 a = len(G._instructions)
                 G.write(pts)
                 blocks.append(list(G._instructions)[a:])
+                if rep == 0 and rng.random() < 0.4 and pts.shape[1] > 2:
+                    # a rejected matrix in between (feed below the guard after the start) must leave no trace
+                    badm = pts.copy()
+                    badm[3][rng.randrange(1, pts.shape[1])] = 0.0
+                    a2, dw = len(G._instructions), G.dwell_time
+                    try:
+                        G.write(badm)
+                    except ValueError:
+                        pass
+                    if len(G._instructions) != a2 or G.dwell_time != dw or G._shutter_on:
+                        blocks.append(['<rejected write left traces>'])
         if not np.array_equal(pts, snap):
             ctx.fail('spec', 'write', case, 'write() modified the point matrix it was given', 'write-mutates')
+        elif len(blocks) > 3:
+            ctx.fail('spec', 'write', case, 'a rejected write() left instructions, dwell time or an open shutter behind', 'write-rejected-traces')
         elif blocks[0] != blocks[1] or blocks[1] != blocks[2]:
             k = next(j for j, (x, y) in enumerate(zip(blocks[0], blocks[1] if blocks[0] != blocks[1] else blocks[2])) if x != y)
             ctx.fail('spec', 'write', {**case, 'first': blocks[0][k], 'again': (blocks[1] if blocks[0] != blocks[1] else blocks[2])[k]},
